@@ -298,6 +298,11 @@ func (ot *objectTree) AddContentWithValidator(ctx context.Context, content Signa
 	added := []StorageChange{storageChange}
 	err = ot.storage.AddAll(ctx, added, ot.Heads(), ot.tree.root.Id)
 	if err != nil {
+		// the change is already in the in-memory tree (and a snapshot has replaced it):
+		// going back to what is stored, as AddRawChangesWithUpdater does
+		if _, rebuildErr := ot.rebuildFromStorage(nil, nil, nil); rebuildErr != nil {
+			log.Error("failed to rebuild after adding content to storage", zap.Strings("heads", ot.Heads()), zap.Error(rebuildErr))
+		}
 		return
 	}
 
